@@ -41,6 +41,9 @@ def check(run):
     from ..rules import idxlint
     idxlint.check(run, P, ("uxarray/grid/", "uxarray/core/", "uxarray/subset/", "uxarray/cross_sections/", "uxarray/remap/", "uxarray/plot/", "uxarray/io/"))
     _winding(run, P)
+    # shells are closed at column n_nodes_per_face[i]: the counts must not be stored in a narrow integer type
+    from ..rules import dtype as _dtw
+    _dtw.check_no_narrow_index_dtype(run, P, ("uxarray/grid/connectivity.py",))
     _shell_builds(run, P)
     _data_paths(run, P)
 
